@@ -32,7 +32,7 @@ WEIGHTS = {"rand": 2.5, "fuse": 6, "fuse_pair": 6, "unfuse": 4, "meta_to_hard": 
 
 
 def budget(tier):
-    return 4000 if tier == "quick" else 60000
+    return 10000 if tier == "quick" else 80000
 
 
 def _generating():
@@ -109,12 +109,34 @@ class OpBlockRel(e1.Op):
         xs = [yastn.rand(task.cfg, legs=[e1._yleg(task, sp) for sp in sps], n=n, dtype=ar["dtype"]) for sps in ar["specs"]]
         ys = [yastn.rand(task.cfg, legs=[e1._yleg(task, sp) for sp in sps], n=n, dtype=ar["dtype"]) for sps in ar["specs"]]
         r = xs[0].ndim
+        pre_fused = False
+        if ar.get("pre_fuse") and r >= 3:
+            # operands arrive fused (meta or hard, chosen from pseed) on two of their common legs: block documents that it turns meta-fused
+            # legs into hard-fused ones, and every relation below must hold unchanged (seeded C03-c)
+            import random as _random
+            pf = _random.Random(ar["pseed"] ^ 0x5F5F)
+            i, j = sorted(pf.sample([q for q in range(r) if q != b], 2))
+            grp = tuple((i, j) if q == i else q for q in range(r) if q != j)
+            fmode = pf.choice(["meta", "meta", "hard"])
+            xs = [x.fuse_legs(axes=grp, mode=fmode) for x in xs]
+            ys = [y.fuse_legs(axes=grp, mode=fmode) for y in ys]
+            b = grp.index(b)
+            r = xs[0].ndim
+            pre_fused = True
+            core.current_world().probes["block_of_%s_fused_operands" % fmode] += 1
         common = tuple(i for i in range(r) if i != b)
         X = yastn.block({(p,): x for p, x in zip(ar["pos"], xs)}, common_legs=common)
         Y = yastn.block({(p,): y for p, y in zip(ar["pos"], ys)}, common_legs=common)
         if _generating():
             return [X]
         V = core.Violation
+        if pre_fused:      # block() was given the operands as fused by the caller; the reference side of every relation uses their hard-fused form
+            Xh = yastn.block({(p,): x.fuse_meta_to_hard() for p, x in zip(ar["pos"], xs)}, common_legs=common)
+            d = float((Xh - X).norm()) if Xh.get_legs() == X.get_legs() else float("inf")
+            if d > 0:
+                raise V(PROP, "O3-block-fused-operands", "block of %s-fused operands differs from block of the same operands hard-fused first (%.3e)" % (fmode, d))
+            xs = [x.fuse_meta_to_hard() for x in xs]
+            ys = [y.fuse_meta_to_hard() for y in ys]
         n2 = sum(float(x.norm()) ** 2 for x in xs)
         if abs(float(X.norm()) ** 2 - n2) > 1e-11 * max(1.0, n2):
             raise V(PROP, "O3-block-norm", "|block|^2 = %.15g, sum of |x_p|^2 = %.15g" % (float(X.norm()) ** 2, n2))
@@ -133,7 +155,7 @@ class OpBlockRel(e1.Op):
                 d = float((X2 - X).norm())
                 if d > 1e-12 * max(1.0, float(X.norm())):
                     raise V(PROP, "O3-block-steps", "blocking in two steps differs from blocking at once by %.3e" % d)
-        if r >= 3 and task.sym.nsym and "pseed" in ar and X.size and Y.size:
+        if r >= 3 and not pre_fused and task.sym.nsym and "pseed" in ar and X.size and Y.size:
             # a blocked leg that LOSES sectors (projection of another leg removes blocks by charge conservation), differently in X and Y, and is then
             # product-fused with a further leg: contraction over the fused leg must equal contraction over its two constituents
             import random as _random
